@@ -60,6 +60,24 @@ def expected_reply(call, widths):
     return None
 
 
+def clause_of(op, got, want, widths):
+    """'header' when the mismatch is about the header line (C09: it is never delivered as a record, get_header names it, and without a header
+    line 1 is the first record); 'api' for everything else the specification fixes (counts, end of input, warnings)."""
+    if op == 'hdr':
+        return 'header'
+    if op in ('get', 'all') and widths:
+        first = fields_of(1, widths[0])
+
+        def has_first(reply):
+            if reply is None:
+                return False
+            recs = [reply] if op == 'get' else list(reply)
+            return any(list(r) == first for r in recs if r is not None)
+        if has_first(got) != has_first(want):
+            return 'header'
+    return 'api'
+
+
 def _replay_chunk(items):
     rbql, eng, rcsv, cu = impl.load()
     out = []
@@ -85,7 +103,7 @@ def _replay_chunk(items):
                 want = expected_reply(call, widths)
                 if got != want:
                     sigs.append({'impl': 'py', 'entry': 'CSVRecordIterator.' + op, 'what': 'reader API reply differs from ReaderApi', 'call': k + 1, 'op': op, 'got': repr(got)[:200], 'want': repr(want)[:200],
-                                 'policy': policy, 'chunk': chunk})
+                                 'policy': policy, 'chunk': chunk, 'clause': clause_of(op, got, want, widths)})
                     break
         except Exception as e:  # noqa -- the API is total on well-formed input
             if not par.innermost_in_repo(e.__traceback__):
@@ -129,7 +147,8 @@ def _replay_sqlite(case):
                 got = it.get_warnings()
                 want = []
             if got != want:
-                sigs.append({'impl': 'py', 'entry': 'SqliteRecordIterator.' + op, 'what': 'reader API reply differs from ReaderApi', 'call': k + 1, 'op': op, 'got': repr(got)[:200], 'want': repr(want)[:200], 'backend': 'sqlite'})
+                sigs.append({'impl': 'py', 'entry': 'SqliteRecordIterator.' + op, 'what': 'reader API reply differs from ReaderApi', 'call': k + 1, 'op': op, 'got': repr(got)[:200], 'want': repr(want)[:200], 'backend': 'sqlite',
+                             'clause': clause_of(op, got, want, widths)})
                 break
     except Exception as e:  # noqa
         if not par.innermost_in_repo(e.__traceback__):
@@ -140,7 +159,7 @@ def _replay_sqlite(case):
     return sigs
 
 
-def check(run, quick):
+def check(run, quick, clauses=('header', 'api')):
     d = tlcrun.new_scratch('readerapi')
     base = {'MaxRecs': 3, 'MaxCalls': 3 if quick else 4, 'EmitCases': 'FALSE', 'MUT': '""'}
     for mut in ('all_one_more', 'skip_after_header'):
@@ -167,8 +186,10 @@ def check(run, quick):
         for c in case['hist']:
             ops[c['op']] = ops.get(c['op'], 0) + 1
         for sig in sigs:
-            run.violation(sig, {'kind': 'reader_api', 'case': case, 'variant': variant})
+            if sig.get('clause', 'api') in clauses:
+                run.violation(sig, {'kind': 'reader_api', 'case': case, 'variant': variant})
     run.notes['reader_api_calls_replayed'] = ops
+    run.notes['reader_api_clauses_reported'] = list(clauses)
     if set(ops) != {'get', 'all', 'hdr', 'warn', 'mod'}:
         core.machinery_failure('ReaderApi: some call kind never replayed: %r' % ops)
 
